@@ -1,13 +1,13 @@
 SPECIFICATION MCSpec
 CONSTANTS Design = "repaired"
           MaxLogs = 2
-          MaxCycles = 1
+          MaxCycles = 2
           MaxAdv = 2
           MaxReads = 1
-          MaxExt = 1
-          MaxFaults = 0
+          MaxExt = 0
+          MaxFaults = 3
           MaxLoggers = 1
           MaxSwitch = 0
-          Slim = FALSE
+          Slim = TRUE
 INVARIANTS LinesWholeInOrder FileNameRight RotatesAfterCycle SuppressedOnlyWithin RetentionExact ReadHonest NoFaultNoLoss SurvivorsSurvive OldRemoved Recovers
 CHECK_DEADLOCK FALSE
